@@ -60,6 +60,8 @@ pub struct Inner {
     pub sync_budget_exceeded: bool,
     /// make every close() return an error (it still counts as the one close)
     pub fail_close: bool,
+    /// the call with this index panics instead of returning (a user backend that panics)
+    pub panic_at: Option<u64>,
     pub close_failures: u32,
 }
 
@@ -131,6 +133,12 @@ impl RecBackend {
         g.fault_fired = false;
     }
 
+    pub fn set_panic_at(&self, at: Option<u64>) {
+        let mut g = self.lock();
+        g.panic_at = at;
+        g.fault_fired = false;
+    }
+
     pub fn monitor_violations(&self) -> Vec<String> {
         let g = self.lock();
         let mut v = g.oob.clone();
@@ -148,6 +156,14 @@ impl Inner {
         }
         let idx = self.calls;
         self.calls += 1;
+        if self.panic_at == Some(idx) {
+            self.panic_at = None;
+            self.fault_fired = true;
+            if self.record {
+                self.log.push(LogOp::Failed(what));
+            }
+            panic!("verif: injected backend panic in {what}");
+        }
         if let Some((k, mode)) = self.fail_at {
             let fire = match mode {
                 FaultMode::Once => idx == k,
